@@ -104,6 +104,86 @@ def tex_balanced(text):
     return d == 0
 
 
+
+def strip_tex_comments(text):
+    """Remove `%` comments (an unescaped `%` up to the end of its line), as TeX does before TikZ sees the text."""
+    out = []
+    for line in text.split("\n"):
+        i, cut = 0, None
+        while i < len(line):
+            if line[i] == "\\":
+                i += 2
+                continue
+            if line[i] == "%":
+                cut = i
+                break
+            i += 1
+        out.append(line if cut is None else line[:cut])
+    return "\n".join(out)
+
+
+def picture_statements(body):
+    """The body of a tikzpicture as TikZ reads it: comments removed, an optional `[options]` argument of the
+    environment skipped, statements ended by a `;` at brace depth 0 (a backslash takes the next character
+    with it).  Returns (statements, unterminated rest)."""
+    src = strip_tex_comments(body)
+    # grouping environments are not statements
+    src = re.sub(r"\\(begin|end)\{(scope|pgfonlayer)\}(\{[^{}]*\})?(\[[^\]]*\])?", " ", src).lstrip()
+    if src.startswith("["):
+        d, i = 0, 0
+        while i < len(src):
+            c = src[i]
+            if c == "\\":
+                i += 2
+                continue
+            d += c == "{"
+            d -= c == "}"
+            if c == "]" and d == 0:
+                break
+            i += 1
+        src = src[i + 1:]
+    stmts, cur, d, i = [], "", 0, 0
+    while i < len(src):
+        c = src[i]
+        if c == "\\":
+            cur += src[i:i + 2]
+            i += 2
+            continue
+        d += c == "{"
+        d -= c == "}"
+        cur += c
+        i += 1
+        if c == ";" and d == 0:
+            stmts.append(cur.strip())
+            cur = ""
+    return stmts, cur.strip()
+
+
+PATH_CMD = re.compile(r"\\(path|node|coordinate|draw|fill|filldraw|clip|shade|shadedraw|matrix|pic|graph)(?![A-Za-z])")
+
+
+def statement_defect(stmt):
+    """None, or why `stmt` (one `;`-terminated piece of a picture) is not ONE TikZ statement: it must begin with a
+    path command and contain no other one at brace depth 0 (that is what a forgotten `;` looks like)."""
+    d, i, found = 0, 0, []
+    while i < len(stmt):
+        c = stmt[i]
+        if c == "\\":
+            m = PATH_CMD.match(stmt, i) if d == 0 else None
+            if m:
+                found.append(i)
+            i += 2
+            continue
+        d += c == "{"
+        d -= c == "}"
+        i += 1
+    if not found or found[0] != 0:
+        return "does not begin with a path command"
+    if len(found) > 1:
+        return "runs into the next path command: `;` missing"
+    return None
+
+
 def greedy_spec(words, width):
     lines, cur = [], []
     for w in words:
@@ -163,7 +243,7 @@ def run_escape(ctx, res):
                           observed={"escaped": e, "read_back": back})
         if m["out"] != e or m["unescaped"] != s or not m["well"]:
             res.tie_broken("escape", case, m, e)
-    res.exhaustive = True
+    res.dist["escape stream exhaustive over its alphabet and length"] += 1  # (only this stream is exhaustive, not the property)
 
 
 # --------------------------------------------------------------------------
@@ -500,16 +580,21 @@ def check_render(ctx, res, case):
     body, tail = body.split("\\end{tikzpicture}")
     if tail.strip():
         res.violation("text after \\end{tikzpicture}", case, observed=tail)
-    stmts = [l for l in body.split("\n") if l.strip()]
-    for l in stmts:
-        if not l.startswith("%") and not l.rstrip().endswith(";"):
-            res.violation("a statement of the picture is not terminated", case, observed=l)
-    defined = re.findall(r"\\definecolor\{(reccolor[0-9]+)\}\{HTML\}\{([0-9A-Za-z]*)\}", head)
+    pstmts, unterminated = picture_statements(body)
+    if unterminated:
+        res.violation("a statement of the picture is not terminated", case, observed=unterminated[:300])
+    for st in pstmts:
+        why = statement_defect(st)
+        if why:
+            res.violation("a statement of the picture is not terminated", case, observed=why + ": " + st[:300])
+            break
+    prefix = re.escape(templates()["color_prefix"])
+    defined = re.findall(r"\\definecolor\{(" + prefix + r"[0-9]+)\}\{HTML\}\{([0-9A-Za-z]*)\}", head)
     names = [n for n, _ in defined]
     if len(set(names)) != len(names):
         res.violation("a colour is defined twice", case, observed=names)
     table = dict(defined)
-    used = set(re.findall(r"reccolor[0-9]+", body))
+    used = set(re.findall(prefix + r"[0-9]+", strip_tex_comments(body)))
     if not used <= set(table):
         res.violation("a colour is used but not defined before the picture", case,
                       expected=sorted(table), observed=sorted(used))
@@ -596,7 +681,7 @@ def check_render(ctx, res, case):
                         res.violation("a statement is not drawn in its branch's colour", case,
                                       expected=br.color, observed={"line": c["line"], "html": html})
                     if c["layer"] == "events":
-                        ev_colors.append(html)
+                        ev_colors.append(html if html is not None else "undefined:" + f)
             else:
                 fills.append(f)
             if kind == "label" and c["owner"] is not None and c["layer"] == "events":
